@@ -28,6 +28,10 @@ ALARM_S = 5.0
 NAME_MAPS = [
     {'V1': 'V1', 'V2': 'V2', 'V3': 'V3', 'a1': 'a1', 'a2': 'a2', 'a3': 'a3', 'a4': 'a4'},
     {'V1': 'Y', 'V2': 'y', 'V3': 'Y_1', 'a1': 'GDP', 'a2': 'Yy', 'a3': 'gdp', 'a4': 'income_2'},
+    # aliases spelt like attributes of the class itself (a property, a class constant, two methods): Python's own
+    # attribute lookup finds those before __getattr__, so attribute *reads* of them go by key below; every other path
+    # (attribute writes, keys, labels, slices, constructor keywords, replace_values) is the alias path proper
+    {'V1': 'Y', 'V2': 'C', 'V3': 'X', 'a1': 'size', 'a2': 'CODE', 'a3': 'values', 'a4': 'copy'},
 ]
 
 
@@ -106,7 +110,9 @@ def equation_fn(wname, rname):
     """Solution code as text: the equation  w[t] = r[t] + 1  written through the given names."""
     key = (wname, rname)
     if key not in _fn_cache:
-        src = f'def _eq(self, t):\n    self.{wname}[t] = self.{rname}[t] + 1\n'
+        # (a name the class already defines is read by key: see NAME_MAPS)
+        ref = lambda n: f'self[{n!r}]' if hasattr(fsic.BaseModel, n) else f'self.{n}'
+        src = f'def _eq(self, t):\n    {ref(wname)}[t] = {ref(rname)}[t] + 1\n'
         ns = {}
         exec(compile(src, f'<equation {wname}={rname}+1>', 'exec'), ns)
         _fn_cache[key] = ns['_eq']
@@ -212,7 +218,7 @@ class Replayer:
         self.names = [self.nm[n] for n in rec['names']]
         self.diffs = []
         self.confirmed_nonterm = confirmed_nonterm
-        self.variant = {'names': 'plain' if self.nm is NAME_MAPS[0] else 'adversarial', 'span': self.span_kind,
+        self.variant = {'names': ['plain', 'adversarial', 'attrlike'][NAME_MAPS.index(self.nm)], 'span': self.span_kind,
                         'strict': self.strict, 'seq': self.seqkind, 'flavour': flavour}
 
     # -- realisation of operands --------------------------------------------
@@ -322,7 +328,7 @@ class Replayer:
             rn, rv = self.nm[n], self.nm[v]
             arr = d.get('_' + rv)
             try:
-                ok = getattr(a, rn) is arr and a[rn] is arr
+                ok = (hasattr(type(a), rn) or getattr(a, rn) is arr) and a[rn] is arr
                 cell_ok = same(a[rn, self.labels[1]], arr[1]) and same(a[rn, self.labels[0]:self.labels[1]], arr[0:2])
             except Exception as e:
                 ok, cell_ok = False, f'{type(e).__name__}: {e}'[:200]
@@ -349,8 +355,10 @@ class Replayer:
                 kw[name2] = float(k + 5)
             m.replace_values(**kw)
         elif kind == 'read':
-            if d == 'attr':
+            if d == 'attr' and not hasattr(type(m), name):
                 return np.array(getattr(m, name), copy=True)
+            if d == 'attr':
+                return np.array(m[name], copy=True)
             if d == 'item':
                 return np.array(m[name], copy=True)
             if d == 'label':
